@@ -46,6 +46,20 @@ def subscript(d, y): return d[y]
 def mkset(xs): return set(xs)
 def members(s, ys): return [y in s for y in ys]
 
+def op_or(x, y): return x | y
+def op_and(x, y): return x & y
+def op_xor(x, y): return x ^ y
+def op_add(x, y): return x + y
+def op_sub(x, y): return x - y
+def op_mul(x, y): return x * y
+def op_floordiv(x, y): return x // y
+def op_mod(x, y): return x % y
+def op_lsh(x, y): return x << y
+def op_rsh(x, y): return x >> y
+def op_not(x): return ~x
+def op_neg(x): return -x
+def op_pos(x): return +x
+
 def f(): pass
 def g(): pass
 lam1 = lambda: 1
